@@ -163,8 +163,8 @@ class Context:
         cov.setdefault("rule", "one evaluation = one explored path of the real code on symbolic inputs (a set of concrete inputs); non-trivial = the path reached the property monitor (not pruned by an assumption)")
         cov["samples"] = self.samples or cov.get("samples") or ["(no sample recorded)"]
         cov["exhaustive"] = bool(self.exhaustive and not self.inconclusive)
-        cov["obligations"] = self.obligations or st["proved"] + st["prove_failed"]
-        cov["discharged"] = self.discharged or st["proved"]
+        cov["obligations"] = self.obligations + st["proved"] + st["prove_failed"]
+        cov["discharged"] = self.discharged + st["proved"]
         cov["solver"] = {k: st[k] for k in ("solver_calls", "checks_sat", "checks_unsat", "checks_unknown", "solver_s", "decisions", "forks", "max_depth")}
         cov["paths"] = st["paths"]
         cov["paths_pruned"] = st["aborted"]
